@@ -3,15 +3,16 @@
 # re-run tryseed.sh for every seed in scripts/seedlist.txt (or those matching $1), one after the other.
 cd /verif; . scripts/goenv.sh
 filter=${1:-.}
+wtdir() { case "$1" in *-*) echo "$1";; *) echo "$1-a";; esac; }
 for wt in $(grep -E "$filter" scripts/seedlist.txt | awk '{print $1}' | sort -u); do
-  d=/tmp/seed/$wt-a
+  d=/tmp/seed/$(wtdir $wt)
   [ -d $d/SEED ] || { echo "no SEED in $d"; continue; }
   if [ "$(git -C $d rev-parse HEAD)" != "$(git -C /repo rev-parse HEAD)" ]; then
     rm -rf /tmp/seed/.save_$wt; mv $d/SEED /tmp/seed/.save_$wt
-    git -C /repo worktree remove --force $d; scripts/mkseedwt.sh $wt-a >/dev/null; rmdir $d/SEED; mv /tmp/seed/.save_$wt $d/SEED
+    git -C /repo worktree remove --force $d; scripts/mkseedwt.sh $(wtdir $wt) >/dev/null; rmdir $d/SEED; mv /tmp/seed/.save_$wt $d/SEED
   fi
 done
 grep -E "$filter" scripts/seedlist.txt | while read wt i name props; do
   echo "=== $name"
-  scripts/tryseed.sh /tmp/seed/$wt-a $i $name $props 2>&1 | grep -E "^clean demo|^detected|^VIOLATION|does not apply|cannot apply" | cut -c1-260
+  scripts/tryseed.sh /tmp/seed/$(wtdir $wt) $i $name $props 2>&1 | grep -E "^clean demo|^detected|^VIOLATION|does not apply|cannot apply" | cut -c1-260
 done
